@@ -332,23 +332,24 @@ macro_rules! access_2d_slice_all_bool {
   ($source:expr, $ix:expr, $out:expr) => {
     unsafe { 
       let vec_ix = &(*$ix);
-      let mut j = 0;
-      let out_len = (*$out).len();
+      // one output row per selected source row
+      let mut rows = 0;
       for i in 0..vec_ix.len() {
         if vec_ix[i] == true {
-          j += 1;
+          rows += 1;
         }
       }
-      if j != out_len {
-        (*$out).resize_vertically_mut(j, (&mut (*$out))[0].clone());
+      if rows != (*$out).nrows() {
+        (*$out).resize_vertically_mut(rows, (*$source).index((0, 0)).clone());
       }
-      j = 0;
+      // the output is column-major: address it by (row, column), not by a running linear offset
+      let mut r = 0;
       for i in 0..vec_ix.len() {
-        for k in 0..(*$source).ncols() {
-          if vec_ix[i] == true {
-            (&mut (*$out))[j] = (*$source).index((i, k)).clone();
-            j += 1;
+        if vec_ix[i] == true {
+          for k in 0..(*$source).ncols() {
+            (&mut (*$out))[(r, k)] = (*$source).index((i, k)).clone();
           }
+          r += 1;
         }
       }
     }};}
